@@ -1,6 +1,7 @@
 """Generic machinery for the model-based properties C04..C12: shards, workloads, probes, monitors, floors."""
 from __future__ import annotations
 
+import os
 from typing import Any, Callable, Dict, List, Optional
 
 import numpy as np
@@ -29,7 +30,7 @@ DEFAULT_POLICIES = {
 EXTRA_POLICIES = {
     "C04": ["frontier", "complete", "collide"], "C05": ["frontier", "collide", "complete"], "C06": ["complete", "collide", "greedy"],
     "C07": ["frontier", "collide", "complete"], "C08": ["complete", "greedy"], "C09": ["complete", "collide", "frontier"],
-    "C11": ["complete"], "C12": ["complete", "frontier", "collide"],
+    "C11": ["complete", "collide"], "C12": ["complete", "frontier", "collide"],
 }
 PROBES = {"C04": "all", "C05": "all", "C09": "some", "C07": "some"}
 
@@ -53,7 +54,11 @@ class ModelMonitor(Monitor):
                 d["event"] = ev.brief()
             if extra:
                 d.update(extra)
-            self.rep.violation(self.r.env_name, self.r.cfg_id, clause, d, replay=ev.replay() if ev is not None else {"env": self.r.env_name, "cfg": self.r.cfg}, qualifier=qualifier)
+            q = qualifier
+            if not q and self.P.has("qualify"):
+                # a model may qualify a clause by the mechanism's precondition (used to key known findings)
+                q = self.P.call("qualify", clause, ev) or ""
+            self.rep.violation(self.r.env_name, self.r.cfg_id, clause, d, replay=ev.replay() if ev is not None else {"env": self.r.env_name, "cfg": self.r.cfg}, qualifier=q)
 
     def ev_count(self, ev: Event, name: str, n: int = 1) -> None:
         self.rep.env_count(ev.env, name, n)
@@ -429,7 +434,7 @@ def run_model_shard(prop: str, shard: Dict[str, Any], rep: Report) -> None:
     probe_fn = make_probe_fn(prop, runner, P, rng, tier)
 
     if prop == "C10":
-        n_keys = 16 if tier == "quick" else 120
+        n_keys = int(os.environ.get("JMON_C10_KEYS", 16 if tier == "quick" else 120))
         digs = set()
         for ep in range(n_keys):
             key, kint = key_for(seed, sid, ep)
